@@ -145,11 +145,11 @@ PROPS = {
     "C12": {
         "kernel_sample": 80,
         "harness_timeout": 3000,
-        "rule": "model comparison of dds::encode (no dithering) for the 35 pixel formats x 4 input channel layouts x 3 precisions: every 8-bit value in every channel, 16-bit values (quick: every 37th, thorough all) plus boundaries, f32 specials (NaN, infinities, -0, subnormals, > 1, < 0, 65504), rounding boundaries (k+0.5)/max and k/max +-1 ulp for every field width, random values; "
+        "rule": "model comparison of dds::encode (no dithering) for all 45 non-BC formats - the 7 sub-sampled formats at widths 1..9 (R1: 1..20) x heights 1..3 and the 3 bi-planar formats at even sizes, random channel layout / precision / content (60, thorough 400 images each); the 35 pixel formats x 4 input channel layouts x 3 precisions: every 8-bit value in every channel, 16-bit values (quick: every 37th, thorough all) plus boundaries, f32 specials (NaN, infinities, -0, subnormals, > 1, < 0, 65504), rounding boundaries (k+0.5)/max and k/max +-1 ulp for every field width, random values; "
                 "implementation-only oracles over all 45 non-BC formats: lossless round trips at the native layout where every stored channel holds the input (unstored channels decode to defaults), quantisation error within half a step for UNORM/SNORM fields on random f32 input incl. values outside [0,1], "
                 "and identical encoded bytes for the same pixel values carried as U8 / U16 (x257) / F32 (x/255), as GRAYSCALE / RGB / RGBA, with different row pitches and image shapes; distinct = distinct case lines",
         "trusted_base": BASE_TRUST + ["model/Float.v (executable IEEE-754 model, validated against the hardware by check C04)"],
-        "assumptions": ["dithering, the sub-sampled and bi-planar encoders (chroma averaging) are not modelled: oracles only", "f32 inputs have no nearest-rounding theorem (2^32 domain): model comparison on boundary and random values"],
+        "assumptions": ["dithering is excluded by the property and not modelled", "f32 inputs have no nearest-rounding theorem (2^32 domain): model comparison on boundary and random values"],
     },
     "C01": {
         "kernel_sample": 10,
